@@ -14,7 +14,7 @@ import time
 import traceback
 from collections import Counter
 
-from .kernel import HarnessError
+from .kernel import HarnessError, silence_logging
 
 VERIF = os.path.dirname(os.path.dirname(os.path.abspath(__file__)))
 REPLAY_DIR = os.path.join(VERIF, "replays")
@@ -54,6 +54,7 @@ def _work_chunk(args):
     devnull = open(os.devnull, "w")
     old_stdout = sys.stdout
     sys.stdout = devnull
+    silence_logging()
     try:
         signal.signal(signal.SIGALRM, _alarm)
         for task in tasks:
@@ -232,6 +233,7 @@ def run_check(eng, prop, tier, seed, workers=None, budget_s=None, max_tasks=None
     """returns the process exit code"""
     global _ENGINE
     _ENGINE = eng
+    silence_logging()
     t0 = time.time()
     workers = workers or min(16, os.cpu_count() or 1)
     budget_s = budget_s or eng.budget(prop, tier)
@@ -419,6 +421,7 @@ def run_check(eng, prop, tier, seed, workers=None, budget_s=None, max_tasks=None
 def run_replay(eng, prop, path):
     global _ENGINE
     _ENGINE = eng
+    silence_logging()
     devnull = open(os.devnull, "w")
     old = sys.stdout
     sys.stdout = devnull
